@@ -4,6 +4,7 @@ import warnings
 import numpy as np
 
 from .. import gen
+from .. import forms as vforms
 from ..util import scale_of
 
 ID = "C20"
@@ -14,8 +15,9 @@ REQUIRED = ["diagram plot: one scatter collection per plotted diagram with its p
             "diagram plot: title / labels / legend as requested", "diagram plot: nothing drawn on any other axes",
             "matching plot: one segment per matched pair, correct end points, on the given axes",
             "matching plot: no segment on any other axes", "bottleneck plot: exactly the bottleneck pair is marked distinctly"]
-RULE = ("diagram plots: 1-3 diagrams of 0-30 points (at least one non-empty), with / without infinite deaths, negative births, option "
-        "grid over plot_only, lifetime, diagonal, legend, labels (None / list / single string), title, xy_range; matching plots: "
+RULE = ("diagram plots: 1-3 diagrams of 0-30 points (at least one non-empty), with / without infinite deaths, negative births, "
+        "given as C-ordered / Fortran-ordered / transposed-build / strided / read-only arrays, option "
+        "grid over plot_only, lifetime, diagonal, legend (bool or numpy.bool_), labels (None / list / single string), title, xy_range; matching plots: "
         "matchings returned by bottleneck / wasserstein on generated pairs incl. an empty diagram on either side; every call is made on "
         "a figure with two subplots where the supplied axes is, and is not, pyplot's current axes (and once with ax=None); all artists "
         "of every axes of every open figure are inspected. non-trivial = matching with >=1 point-point row and >=1 diagonal row on "
@@ -103,7 +105,20 @@ def diagram_case(ctx, k, rng):
         lo, hi = -2.0 * scale, 12.0 * scale
         opts["xy_range"] = [lo, hi, lo, hi] if rng.random() < 0.5 else [lo, hi * float(rng.choice([0.5, 2.0])), lo * 0.5, hi * float(rng.choice([0.25, 1.0, 3.0]))]
     single = nd == 1 and rng.random() < 0.5
-    arg = dgms[0] if single else dgms
+    # what is handed to the plotting call: the same values, a third of the diagrams in another memory layout (Fortran order,
+    # np.array([births, deaths]).T, a strided window, read-only); boolean options sometimes as numpy.bool_
+    given, lay = [], []
+    for d in dgms:
+        r = rng.random()
+        if r < 0.3 and len(d):
+            g, nm = vforms.relayout(rng, d)
+        else:
+            g, nm = d, "as-is"
+        given.append(g); lay.append(nm)
+    for name in ("lifetime", "diagonal", "legend"):
+        if name in opts:
+            opts[name] = vforms.npflag(rng, opts[name])
+    arg = given[0] if single else given
     shown_idx = opts.get("plot_only") or list(range(nd))
     if single and "plot_only" in opts:
         del opts["plot_only"]; shown_idx = [0]
@@ -111,7 +126,9 @@ def diagram_case(ctx, k, rng):
     if all(np.sum(np.isfinite(d)) == 0 for d in shown):
         return
     mode = int(rng.integers(0, 3))       # 0: target is current, 1: target is not current, 2: ax=None (gca)
-    ctx.begin(k, "diagrams/mode%d" % mode, {"diagrams": dgms, "options": opts, "axes_mode": mode})
+    ctx.begin(k, "diagrams/mode%d" % mode, {"diagrams": dgms, "given_as": lay, "options": {a: (bool(b) if isinstance(b, np.bool_) else b) for a, b in opts.items()}, "axes_mode": mode})
+    for nm in lay:
+        ctx.seen("diagram argument forms", nm)
     plt.close("all")
     fig, target, other = two_axes(mode != 1)
     try:
